@@ -232,7 +232,7 @@ pub fn random_step(rng: &mut Rng, srv: &mut Srv, padlens: &[usize]) -> Value {
                     p.insert("app".to_string(), s(&app));
                     p.insert("flashVer".to_string(), s("FMLE/3.0"));
                     if rng.chance(1, 2) {
-                        p.insert("objectEncoding".to_string(), Amf0Value::Number(*rng.pick(&[0.0, 3.0])));
+                        p.insert("objectEncoding".to_string(), if rng.chance(1, 4) { s("3") } else { Amf0Value::Number(*rng.pick(&[0.0, 3.0])) });
                     }
                     Amf0Value::Object(p)
                 }
@@ -276,7 +276,7 @@ pub fn random_step(rng: &mut Rng, srv: &mut Srv, padlens: &[usize]) -> Value {
             let (args, class) = match rng.below(8) {
                 0 => (vec![], "none"),
                 1 => (vec![Amf0Value::Boolean(true)], "keynotstring"),
-                2 => (vec![s(&key), Amf0Value::Number(-2.0)], "ok"),
+                2 => (vec![s(&key), Amf0Value::Number(*rng.pick(&[-2.0, -1.0, 0.0]))], "ok"),
                 3 => (vec![s(&key), Amf0Value::Number(-5.0), Amf0Value::Number(-1.0), Amf0Value::Null, s("extra")], "ok"),
                 4 => (vec![s(&key), Amf0Value::Number(10.0), Amf0Value::Number(30.0), Amf0Value::Boolean(true)], "ok"),
                 5 => (vec![s(&key), s("x"), s("y"), s("z")], "ok"),
@@ -307,11 +307,25 @@ pub fn random_step(rng: &mut Rng, srv: &mut Srv, padlens: &[usize]) -> Value {
         58..=63 => {
             let msid = pick_sid(rng, srv);
             let meta = gen_meta(rng);
+            let mut meta = meta;
+            let mut mobj = meta_object(&meta);
+            if rng.chance(1, 3) {
+                if let Amf0Value::Object(ref mut p) = mobj {
+                    p.insert("unknownKey".to_string(), Amf0Value::Number(1.0));
+                    p.insert("duration".to_string(), s("x"));
+                    // an ill-typed known key is ignored by the mapping: the event must not carry a value for it
+                    match rng.below(3) {
+                        0 => { p.insert("width".to_string(), s("wide")); meta.video_width = None; }
+                        1 => { p.insert("stereo".to_string(), Amf0Value::Number(1.0)); meta.audio_is_stereo = None; }
+                        _ => { p.insert("encoder".to_string(), Amf0Value::Null); meta.encoder = None; }
+                    }
+                }
+            }
             let (vals, shape) = match rng.below(8) {
-                0 => (vec![s("@setDataFrame"), s("somethingElse"), meta_object(&meta)], "notmeta"),
+                0 => (vec![s("@setDataFrame"), s("somethingElse"), mobj.clone()], "notmeta"),
                 1 => (vec![s("@setDataFrame"), s("onMetaData"), Amf0Value::Number(1.0)], "noobj"),
-                2 => (vec![s("onMetaData"), meta_object(&meta)], "other"),
-                _ => (vec![s("@setDataFrame"), s("onMetaData"), meta_object(&meta)], "ok"),
+                2 => (vec![s("onMetaData"), mobj.clone()], "other"),
+                _ => (vec![s("@setDataFrame"), s("onMetaData"), mobj.clone()], "ok"),
             };
             let b = srv.peer.encode(RtmpMessage::Amf0Data { values: vals }, ts, msid);
             srv.input(json!({"m":"setDataFrame","msid":msid,"shape":shape,"meta":meta_json(&meta)}), &b)
